@@ -53,6 +53,14 @@ class CounterInit(TypesBase):
         ctx.check(oname("C17", self.target, "ensures", "value-in-range"), And(got >= 0, got < M) if isinstance(got, SInt) else 0 <= got < M)
         return "returns"
 
+    def witness(self, ob, model):
+        from pyvc.vu import model_values
+        v = model_values(model).get("v!0")
+        if v is None:
+            return None
+        return {"kind": "pycall", "setup": "from puresnmp.types import %s" % self.cls_name, "expr": "%s(%d).value" % (self.cls_name, v),
+                "expected": "0 if %d <= 0 else %d %% 2**%d" % (v, v, self.bits)}
+
 
 class TicksFromTimedelta(TypesBase):
     target = "puresnmp.types:TimeTicks.__init__"
@@ -112,6 +120,12 @@ class TicksPythonize(TypesBase):
                 ctx.check(oname(p, self.target, "ensures", "exactly-n-hundredths-of-a-second"),
                           lift_bool(zint(res.fields["us"]) == n.e * 10 ** 4))
         return "returns"
+
+    def witness(self, ob, model):
+        from pyvc.vu import model_values
+        n = model_values(model).get("ticks!0", 0)      # (a value the model leaves open: 0)
+        return {"kind": "pycall", "setup": "from puresnmp.types import TimeTicks\nfrom datetime import timedelta",
+                "expr": "TimeTicks(%d).pythonize()" % n, "expected": "timedelta(milliseconds=10 * %d)" % n}
 
 
 class IpRoundTrip(TypesBase):
